@@ -446,6 +446,16 @@ pub fn generate(seed: u64, k_seeds: usize) -> Sc {
                 if !row[C_COMM].is_empty() && r.chance(1, 3) {
                     row[C_CCUR] = "CAD".to_string();
                 }
+            } else if r.chance(1, 20) && matches!(row[C_ACTION].to_lowercase().as_str(), "buy" | "sell" | "roc") {
+                // another currency always carries its own rate
+                row[C_CUR] = (*r.pick(&["EUR", "GBP", "eur"])).to_string();
+                row[C_FX] = format!("1.{:04}", r.range(3000, 7000));
+                if !row[C_COMM].is_empty() && r.chance(1, 2) {
+                    row[C_CCUR] = (*r.pick(&["CAD", "EUR"])).to_string();
+                    if row[C_CCUR] != "CAD" {
+                        row[C_CFX] = format!("1.{:04}", r.range(3000, 7000));
+                    }
+                }
             } else if r.chance(1, 6) && matches!(row[C_ACTION].to_lowercase().as_str(), "buy" | "sell") {
                 row[C_CUR] = "CAD".to_string();
                 if !row[C_COMM].is_empty() && usd && r.chance(1, 3) {
@@ -605,13 +615,23 @@ pub fn generate(seed: u64, k_seeds: usize) -> Sc {
             }
         }
     }
+    // Sometimes one more file that has a header and no rows.
+    if r.chance(1, 12) {
+        let pos = r.below(files.len() as u64 + 1) as usize;
+        files.insert(pos, CsvFile { name: "empty.csv".to_string(), extra_cols: vec![], rows: vec![], layout_seed: 0 });
+    }
     // A quarter of the files permute their columns and spell the header names differently.
     for f in files.iter_mut() {
         if r.chance(1, 4) {
             f.layout_seed = r.next_u64() | 1;
         }
     }
-    let sum_day = d(start_year, 1, 1) + Duration::days(r.range(100, span_days.max(101)));
+    // the summary date: inside the history, or (1 in 8) before its first / after its last transaction
+    let sum_day = match r.below(16) {
+        0 => d(start_year - 1, 6, 1),
+        1 => d(start_year + 3, 12, 31),
+        _ => d(start_year, 1, 1) + Duration::days(r.range(100, span_days.max(101))),
+    };
     let mut hash_seeds = vec![];
     for _ in 0..k_seeds {
         hash_seeds.push(r.next_u64());
